@@ -54,6 +54,7 @@ func checkDecoderFillsOnEveryPath(p *core.Program, r *core.Report, tn string, de
 		b *ssa.BasicBlock
 	}
 	fills := map[string][]site{}
+	parsed := map[string]bool{} // fields with a fill site that is a call (a parse that can fail), as opposed to plain copies
 	var delegates []*ssa.Function
 	for _, b := range dec.Blocks {
 		for _, in := range b.Instrs {
@@ -67,6 +68,7 @@ func checkDecoderFillsOnEveryPath(p *core.Program, r *core.Report, tn string, de
 					if f, ok := fieldBelow(a, 0); ok {
 						if _, isAddr := a.Type().Underlying().(*types.Pointer); isAddr {
 							fills[f] = append(fills[f], site{b})
+							parsed[f] = true
 						}
 					}
 					// the receiver itself handed to an in-repo method/function together with the decoded document
@@ -85,9 +87,13 @@ func checkDecoderFillsOnEveryPath(p *core.Program, r *core.Report, tn string, de
 		}
 		return
 	}
+	// only fields that are *parsed* are judged: a plain copy (p.StartIndex = wire.StartIndex) cannot fail, and a decoder
+	// in the sticky-error style guards it with "no error so far", which no dominance argument sees through
 	var fields []string
 	for f := range fills {
-		fields = append(fields, f)
+		if parsed[f] {
+			fields = append(fields, f)
+		}
 	}
 	sort.Strings(fields)
 	var bad []string
